@@ -869,6 +869,9 @@ impl IncrementalEngine {
         self.working_memory = WorkingMemory::new();
         self.agenda.clear();
         self.rule_matched_facts.clear();
+        // The new working memory hands out handles from 1 again: justifications, dependents and
+        // retraction marks recorded for the old facts must not be applied to the new ones
+        self.tms.clear();
 
         // Reload all deffacts
         self.load_deffacts()
